@@ -13,6 +13,12 @@
 
 from __future__ import annotations
 
+import os
+
+# the entry obligation of the 3-d Cartesian matrix nests more than 48 undecided If conditions along one proof path
+# (three axes x both sides x row / column position): the case-splitting normal-form prover needs a deeper budget here
+os.environ.setdefault("PDV_RATNF_DEPTH", "400")
+
 from fractions import Fraction
 
 import z3
@@ -495,8 +501,9 @@ def bounded(tier, seed):
     res = native("poisson.py", {"configs": configs, "per_config": per, "seed": seed}, timeout=3000)
     if not res.get("ok"):
         raise RuntimeError(f"native driver failed: {res}")
-    return [{"name": "solve_poisson_then_laplace", "bound": f"{len(configs)} grid/BC-kind configurations x {per} random instances (2..6 cells per axis, random rhs and BC constants)",
-             "cases": res["cases"], "reported_as_errors": res["reported_as_errors"], "ill_conditioned_skipped": res.get("ill_conditioned_skipped"), "failures": res["failures"]}]
+    return [{"name": "solve_poisson_then_laplace", "bound": f"{len(configs)} grid/BC-kind configurations x {per} random instances (2..6 cells per axis, random rhs and BC constants); curvature conditions on every side of 2-d / 3-d Cartesian grids are not fed to the real solver (SuperLU of the installed scipy crashes the interpreter intermittently on them)",
+             "cases": res["cases"], "reported_as_errors": res["reported_as_errors"], "ill_conditioned_skipped": res.get("ill_conditioned_skipped"),
+             "configurations_skipped_superlu_crash": res.get("configurations_skipped_superlu_crash"), "failures": res["failures"]}]
 
 
 TRUSTED = [
